@@ -358,7 +358,7 @@ func post(n ast.Node) ast.Node {
 				}
 			case "sync":
 				switch name {
-				case "Mutex", "RWMutex", "WaitGroup", "Once", "Cond", "NewCond", "Locker":
+				case "Mutex", "RWMutex", "WaitGroup", "Once", "Cond", "NewCond", "Locker", "OnceFunc", "OnceValue", "OnceValues":
 					counts["sync."+name]++
 					return sel(name)
 				case "Pool":
@@ -391,7 +391,10 @@ func post(n ast.Node) ast.Node {
 				case "WithTimeout", "WithDeadline":
 					counts["context."+name]++
 					return sel(name)
-				case "WithTimeoutCause", "WithDeadlineCause", "AfterFunc":
+				case "AfterFunc":
+					counts["context.AfterFunc"]++
+					return sel("ContextAfterFunc")
+				case "WithTimeoutCause", "WithDeadlineCause":
 					die(s.Pos(), "context.%s inside instrumented code (its timers run on the real clock)", name)
 				}
 			}
